@@ -53,6 +53,17 @@ fn exec_all(requests: &[String], serial: bool) -> Vec<String> {
 fn main() {
     // panics inside the code under test are an output class, not noise
     std::panic::set_hook(Box::new(|_| {}));
+    {
+        let ops = ops::all_ops();
+        for (i, (a, pa)) in ops.iter().enumerate() {
+            for (b, pb) in ops.iter().skip(i + 1) {
+                if a == b {
+                    eprintln!("op name `{a}` is registered by both {pa} and {pb}");
+                    std::process::exit(3);
+                }
+            }
+        }
+    }
     let args: Vec<String> = std::env::args().collect();
     match args.get(1).map(|s| s.as_str()) {
         Some("gen") if args.len() == 6 => {
